@@ -71,6 +71,7 @@ HARNESSES = {
         H("c08_regret_match_positive_n1", "data", "C05.K.regret_match.distribution", bounded=B3),
         H("c08_regret_match_positive_n2", "data", "C05.K.regret_match.distribution", bounded=B3, tier="thorough", timeout=1800),
         H("c08_regret_match_positive_n3", "data", "C05.K.regret_match.distribution", bounded=B3, tier="experimental", timeout=1800),
+        H("c05_regret_match_any_finite_n2", "data", "C05.K.regret_match.any_finite_regrets", bounded="2 actions; regrets ANY finite f64 (no magnitude bound): known finding D10"),
         H("c08_regret_match_fallbacks_n1", "data", "C05.K.regret_match.distribution", bounded=B3),
         H("c08_regret_match_fallbacks_n2", "data", "C05.K.regret_match.distribution", bounded=B3, tier="thorough", timeout=1800),
         H("c08_regret_match_fallbacks_n3", "data", "C05.K.regret_match.distribution", bounded=B3, tier="thorough", timeout=1800),
